@@ -24,6 +24,9 @@
     every character of the text).
   NOT regenerated (bound by the prelude to the hand model, see its header): `StrGlyphMapping::chars`, the image draw
   of a glyph (`Image_draw`), `MonoFontDrawTarget`'s lowering.
+
+  -- [V] `StrGlyphMapping::chars()` (the `from_fn(..).flatten()` decoder of `\0 start end` ranges, with `?` inside the closure) is not regenerated: the regenerated `index` / `contains` are proved over the hand model's `expand`, which stays tied to the source by the font.index / font.glyph correspondence only
+  -- [V] `Image::new(&glyph, p).draw(target)` and `MonoFontDrawTarget`'s colour lowering (src/mono_font/draw_target.rs) are bound by the prelude to C09's image model / `Font.Mode.lower`, not regenerated
 -/
 import EG.Generated.TextSrc
 import EG.Props.C15.Generated
